@@ -33,4 +33,10 @@ theorem C16_sendPacket_spec (s : Proto) (p : Packet) :
 /-- `BROADCAST_ADDRESS` in `src/protocol.rs` is the model's -/
 theorem C16_src_broadcast : SrcTie.broadcastOk = true := by decide
 
+/-- link send errors are returned to the caller: sending a packet addressed to another device returns exactly what the
+link answered to its transmission (`Ok`, or the interface error) -/
+theorem C16_send_result (s : Proto) (p : Packet) (h : (p.addr == s.addr) = false) :
+    (s.sendPacket p).2 = nextTxAnswer s.txQueue :=
+  Ross.sendPacket_result s p h
+
 end Ross.Props
